@@ -129,7 +129,7 @@ let rej_code (r : HsHttp.rej) = let c = int_of_n r.HsHttp.rj_code in if c = 0 th
 
 let () =
   register "U09" (fun i o -> match i, o with
-    | [api; rbuf; _wbuf; tail; chunks; hdr; proto; ext; neg; onreq; onhost; onhdr; before; stext],
+    | [api; rbuf; _wbuf; tail; chunks; hdr; proto; ext; neg; onreq; onhost; onhdr; before; stext; _tag],
       [cls; hproto; hexts; out] ->
       let chunks = dec_chunks chunks and tail = tail_of tail in
       let flat = List.concat chunks in
@@ -231,7 +231,7 @@ let dec_header_map s : (coq_N list * coq_N list list) list =
 
 let () =
   register "H09" (fun i o -> match i, o with
-    | [_api; meth; major; minor; host; hdrs; _cfghdr; proto; ext; neg; hdrbytes; stext], [cls; hproto; hexts; out] ->
+    | [_api; meth; major; minor; host; hdrs; _cfghdr; proto; ext; neg; hdrbytes; stext; _tag], [cls; hproto; hexts; out] ->
       let meth = bytes_of_hex meth and host = bytes_of_hex host in
       let major = int_of_string major and minor = int_of_string minor in
       let hdrs = dec_header_map hdrs in
